@@ -1212,10 +1212,17 @@ func GetSSRsFromQSR(qsr *QuerySegmentRequest, querySummary *summary.QuerySummary
 
 	sTime := time.Now()
 	var rawSearchSSRs map[string]*structs.SegmentSearchRequest
-	if writer.IsSegKeyUnrotated(qsr.segKey) {
+	isUnrotated := writer.IsSegKeyUnrotated(qsr.segKey)
+	if isUnrotated {
 		rawSearchSSRs = metadata.ExtractUnrotatedSSRFromSearchNode(qsr.sNode, qsr.queryRange,
 			qsr.indexInfo.GetQueryTables(), blocksToRawSearch, querySummary, qsr.qid)
-	} else {
+		// The segment may have been rotated between the check above and the lookup of its
+		// unrotated info; it is then skipped there, but it is in the rotated metadata.
+		if len(rawSearchSSRs) == 0 && !writer.IsSegKeyUnrotated(qsr.segKey) {
+			isUnrotated = false
+		}
+	}
+	if !isUnrotated {
 		rawSearchSSRs = ExtractSSRFromSearchNode(qsr.sNode, blocksToRawSearch, qsr.queryRange,
 			qsr.indexInfo.GetQueryTables(), querySummary, qsr.qid, isQueryPersistent, qsr.pqid)
 	}
